@@ -146,6 +146,15 @@ def run(ctx):
         kind = r.choice(C.KINDS8)
         cfg = C.rand_cfg(r, segctrl=(kind == "file_data"))
         k_factory(ctx, kind, cfg, C.rand_params(r, kind, cfg))
+    # PDUs whose CRC trailer is exactly 0x0000 / 0xFFFF, and whose running CRC is 0x0000 / 0xFFFF at the end of the header
+    for target in (0x0000, 0xFFFF):
+        for kind in C.KINDS8:
+            for where in ("whole", "header"):
+                cfg = C.rand_cfg(r, crc=1, segctrl=(kind == "file_data"), seqw=r.choice((2, 4, 8)))
+                got = C.craft_crc_boundary(kind, cfg, C.rand_params(r, kind, cfg, rich=False), where, target)
+                if got is not None:
+                    ctx.table("crc_register_at_boundary", f"{kind}/{where}/{target:04x}")
+                    k_factory(ctx, kind, got[0], got[1])
     for j in range(ctx.n(600, 60_000)):
         k_holder_reuse(ctx, ctx.seed * 1_000_003 + ctx.shard[0] * 100_003 + j)
     if ctx.shard[0] == 0:
